@@ -398,6 +398,16 @@ func checkSign(c sigCase) (err error) {
 		return pbt.Errf("RRSIG.Verify of the signature just made by Sign failed: %v", verr)
 	}
 
+	// a signer that fails: Sign must say so - an RRSIG that Sign reports as made has to verify
+	{
+		fs := &dns.RRSIG{Inception: c.Incep, Expiration: c.Expir, KeyTag: tag, SignerName: wm.EscName(c.SignerAs), Algorithm: c.Alg, OrigTtl: c.OrigTTL}
+		if ferr := fs.Sign(ref.FailingSigner{Pub: ref.PublicOf(priv)}, libSet); ferr == nil {
+			if verr := fs.Verify(signed.libKey(), libSet); verr != nil {
+				return pbt.Errf("RRSIG.Sign reported success although the crypto.Signer returned an error; the RRSIG it left (signature %q) does not verify: %v", fs.Signature, verr)
+			}
+		}
+	}
+
 	// (2) the reference signs (RFC Labels value), the library verifies
 	refw := base.clone()
 	refw.F = sigFields{TypeCovered: typ, Alg: c.Alg, Labels: uint8(wantLabels), OrigTTL: wantTTL, Expiration: c.Expir, Inception: c.Incep, KeyTag: tag, Signer: c.SignerAs.Clone()}
@@ -775,6 +785,18 @@ func checkSign(c sigCase) (err error) {
 	})
 	add("key class differs", func(w *world) bool { w.KeyClass ^= 2; return true })
 	add("key flags changed (SEP bit)", func(w *world) bool { w.KeyFlags ^= 1; return true })
+	// key material of another length (the decoders of the fixed-size algorithms must look at it)
+	add("key octets without the last one (tag made to fit)", func(w *world) bool {
+		if len(w.KeyOctets) == 0 {
+			return false
+		}
+		w.KeyOctets = w.KeyOctets[:len(w.KeyOctets)-1]
+		retag(w)
+		return true
+	})
+	add("key octets with one more octet (tag made to fit)", func(w *world) bool { w.KeyOctets = append(w.KeyOctets, 0x01); retag(w); return true })
+	add("key octets doubled (tag made to fit)", func(w *world) bool { w.KeyOctets = append(w.KeyOctets, w.KeyOctets...); retag(w); return true })
+	add("empty key (tag made to fit)", func(w *world) bool { w.KeyOctets = nil; retag(w); return true })
 	add("another key of the same algorithm (tag made to fit)", func(w *world) bool {
 		op, e := privFor(c.Alg, c.KeySlot+1, append([]byte{0x5a}, c.KeySeed...))
 		if e != nil {
